@@ -15,6 +15,8 @@ Monitors (written against the property text, evaluated on the real observations 
   M2 a call resolves to the newest implementation whose version is <= getCodeVersion(), also after load/restart
   M3 a node whose enabled version is above its code applies nothing
   M4 old and new code run the same method for every entry (pair scripts)
+  M5 inside conf.onCodeVersionChanged(old, new): getCodeVersion() == new and every replicated call issued from the hook
+     (one real call per method of the object and of every consumer) resolves to the newest implementation <= new
 """
 import collections
 import gzip
@@ -43,6 +45,8 @@ SIG_LOST_USER = "syncobj.loadDumpFile:enabled-version-not-restored-with-user-ser
 SIG_TABLE_APPLY = "syncobj.doApplyCommand:call-not-newest-version-le-enabled"
 SIG_PAIR = "syncobj.applyLogEntries:old-and-new-code-run-different-method"
 SIG_GUARD = "syncobj.setCodeVersion:unsupported-or-lower-version-accepted"
+SIG_HOOK = "syncobj.doApplyCommand:call-from-version-hook-not-newest-version-le-enabled"
+SIG_HOOK_VER = "syncobj.doApplyCommand:version-hook-sees-other-enabled-version"
 
 
 def _spec_self_ver(spec):
@@ -149,6 +153,34 @@ class Runner(object):
                                 % (site, e, orig, o, got, want), None)
                 return
 
+    def _monitor_hook(self, ev):
+        """M5: inside onCodeVersionChanged(old, new) getCodeVersion() == new and every replicated call issued from the
+        hook resolves to the newest implementation not above new (KeyError only when there is none)."""
+        spec = self.specs[self.cur]
+        ids, _ = L.extract_ids(self.b)
+        for e in ev:
+            if e[0] != "verChanged" or len(e) != 5:
+                continue
+            _, old, new, seen, tab = e
+            self.cov["m5_checked"] += 1
+            if seen != new:
+                self._violation(SIG_HOOK_VER, "onCodeVersionChanged(%d, %d) ran while getCodeVersion() was %r" % (old, new, seen), None)
+            got = {(o, L.name_str(orig)): (L.name_str(nm), cid) for o, orig, nm, cid in tab}
+            for (o, orig) in sorted({(o, nm) for o, nm, _ in L.decls_of(spec)}):
+                want = L.expected_impl_version(spec, o, orig, new)
+                g = got.get((o, orig))
+                if want is None:
+                    ok = g is None
+                else:
+                    ok = g is not None and g[1] is not None and ids[g[1]][0] == want and ids[g[1]][1] == o \
+                        and ids[g[1]][3] == orig
+                if not ok:
+                    ran = None if (g is None or g[1] is None) else ids[g[1]][2]
+                    self._violation(SIG_HOOK, "a call of %s on object %d issued from onCodeVersionChanged(%d, %d) "
+                                    "(getCodeVersion()=%r) resolves to %r, newest implementation not above %d is version %r"
+                                    % (orig, o, old, new, seen, ran if g else "KeyError", new, want), None)
+                    return
+
     def _monitor_apply(self, before, ev):
         """M1 / M3 on one real __applyLogEntries call."""
         spec = self.specs[self.cur]
@@ -203,7 +235,10 @@ class Runner(object):
             self._emit({"op": "restart", "cls": L.cls_json(self.specs[name]), "keepLog": False}, "state", self._state())
         elif k == "apply":
             before = L.extract_state(b)
+            calls0 = b.hook_calls
             ev = L.apply_real(b, self.arg2idx)
+            self.cov["hook_calls"] += b.hook_calls - calls0
+            self._monitor_hook(ev)
             self._monitor_apply(before, ev)
             st = self._state()
             self._emit({"op": "apply"}, "apply", (ev, st))
@@ -532,6 +567,9 @@ def _compare(R, out, disagreements, cov):
             ev, st = exp
             m = L.canon_model_state(res["state"])
             m["table"] = {(o, L.name_str(orig)): (L.name_str(nm), cid) for o, orig, nm, cid in res["state"]["table"]}
+            for x in res["ev"]:
+                if x[0] == "verChanged" and len(x) == 5:
+                    x[4] = sorted(x[4])      # the table is a dict on the real side: order is not an observation
             if res["ev"] != json.loads(json.dumps(ev)):
                 diff = ("apply events", res["ev"], ev)
             elif m != st:
@@ -709,7 +747,7 @@ def run(ctx):
     floors = ["ev_ran", "ev_wrongVer", "ev_verChanged", "ev_blocked", "cb_ok", "cb_discarded", "setver_tooHigh",
               "setver_tooLow", "setver_queued", "dump_made", "dump_none", "op_load", "op_compact", "mode_file", "mode_user",
               "m1_checked", "m3_checked", "m4_checked", "follower_from_dump", "follower_from_log", "load_after_switch",
-              "load_enabled_gt_self", "load_clear_kept", "load_clear_installed", "load_ev_cbOpen"] + (["ev_unknownId", "cb_keyError"] if INCLUDE_UNKNOWN_IDS else [])
+              "load_enabled_gt_self", "load_clear_kept", "load_clear_installed", "load_ev_cbOpen", "hook_calls", "m5_checked"] + (["ev_unknownId", "cb_keyError"] if INCLUDE_UNKNOWN_IDS else [])
     missed = [f for f in floors if not cov.get(f)]
     if missed and not disagreements and not violations:
         res["inconclusive"] = "coverage floor missed: %s" % missed
